@@ -10,6 +10,7 @@
 From Coq Require Import List NArith Bool Permutation Ascii.
 From Coq Require String.
 From GY Require Import Model.Schema Spec.C07 Proofs.AugmentProofs.
+From GY Require Spec.C04.
 Import ListNotations.
 
 (* ------------------------------------------------------------------ T1: confluence *)
@@ -81,29 +82,56 @@ Proof. exact augment_loop_error_agree. Qed.
 Theorem C07_Process_stages : forall SC ic ins order, Process SC ic ins order = Process_staged SC ic ins order.
 Proof. exact Process_stages. Qed.
 
-(* the rounds {retry loop; FixChoice} are order-independent -- PARTIAL: under the premise that FixChoice
-   respects forest equivalence ([fix_all_compat]: not proved; fix_choice recurses on fuel taken from the
-   depth of the trees and rebuilds child maps in list order) *)
-Theorem C07_T2_rounds_order_independent_partial : forall SC, fix_all_compat SC ->
-  forall fuel round F F' P P' o1 o2 F2 P2 m2 F2' e2' P2' m2',
+(* FixChoice on all trees is a function of the view: equal views before, equal views after -- whatever the
+   measured depth that sets its fuel, cut off or not -- and doing it twice is doing it once *)
+Theorem C07_T2_fix_all_respects_eqv : forall SC F F', forest_eqv F F' -> forest_eqv (fix_all SC F) (fix_all SC F').
+Proof. exact fix_all_respects_eqv. Qed.
+
+Theorem C07_T2_fix_all_idempotent : forall SC X, forest_eqv (fix_all SC (fix_all SC X)) (fix_all SC X).
+Proof. exact fix_all_idem. Qed.
+
+(* the rounds {retry loop; FixChoice}, from equivalent states and in two visiting orders, are both clean or
+   both not, and if clean end in equivalent forests with the same augments left *)
+Theorem C07_T2_rounds_order_independent : forall SC fuel round F F' P P' o1 o2 F2 P2 m2 F2' e2' P2' m2',
   forest_eqv F F' -> Permutation (all_pending P) (all_pending P') ->
   NoDup (map fst P) -> NoDup (map fst P') -> covers P o1 -> covers P' o2 ->
   (length (all_pending P) <= n_aug SC)%nat ->
   rounds SC fuel round F false P o1 = (F2, false, P2, m2) ->
   rounds SC fuel round F' false P' o2 = (F2', e2', P2', m2') ->
   e2' = false /\ forest_eqv F2 F2' /\ Permutation (all_pending P2) (all_pending P2').
-Proof. exact rounds_confluent. Qed.
+Proof. exact rounds_order_independent. Qed.
 
-(* Process o1 and Process o2 agree up to forest equivalence for schemas without deviations whose rounds
-   apply every augment -- PARTIAL: same premise; deviations (which visit modules in [order]) excluded *)
-Theorem C07_T2_process_order_independent_partial : forall SC ic ins,
-  fix_all_compat SC -> no_deviations SC ->
-  NoDup (map m_name SC) -> forall o1 o2, covers (pend0 SC) o1 -> covers (pend0 SC) o2 ->
-  sources_ok SC ic = true ->
-  forall F2 P1, augment_stage SC ic o1 = (F2, false, P1, []) ->
-  Process SC ic ins o1 = ROk F2 /\
-  exists F2', Process SC ic ins o2 = ROk F2' /\ forest_eqv F2 F2'.
-Proof. exact process_order_independent. Qed.
+(* the rounds of Process never run out of fuel: they end in a state in which no pending augment is applicable
+   (every later round applies at least one augment) *)
+Theorem C07_T2_rounds_reach_fixpoint : forall SC fuel round F err P mods F2 err2 P2 mods2,
+  rounds SC fuel round F err P mods = (F2, err2, P2, mods2) ->
+  NoDup (map fst P) -> covers P mods -> (length (all_pending P) <= n_aug SC)%nat ->
+  (length (all_pending P) + (match round with O => 1 | _ => 0 end) < fuel)%nat ->
+  (round <> O -> forest_eqv (fix_all SC F) F) ->
+  vmaximal SC (flat_of F2) (all_pending P2).
+Proof. exact rounds_final. Qed.
+
+(* Process: for schemas without deviations (deviations visit the modules in [order]: C08), two visiting
+   orders that contain every module with augments either both report an error or return equivalent forests *)
+Theorem C07_T2_process_order_independent : forall SC ic ins,
+  no_deviations SC -> NoDup (map m_name SC) ->
+  forall o1 o2, covers (pend0 SC) o1 -> covers (pend0 SC) o2 ->
+  match Process SC ic ins o1, Process SC ic ins o2 with
+  | ROk F1, ROk F2 => forest_eqv F1 F2
+  | RErr, RErr => True
+  | _, _ => False
+  end.
+Proof. exact process_order_independent_full. Qed.
+
+Theorem C07_T2_process_order_independent_perm : forall SC ic ins,
+  no_deviations SC -> NoDup (map m_name SC) ->
+  forall o1 o2, Permutation (map m_name SC) o1 -> Permutation (map m_name SC) o2 ->
+  match Process SC ic ins o1, Process SC ic ins o2 with
+  | ROk F1, ROk F2 => forest_eqv F1 F2
+  | RErr, RErr => True
+  | _, _ => False
+  end.
+Proof. exact process_order_independent_perm. Qed.
 
 (* ------------------------------------------------------------------ T3: reporting *)
 (* not applicable = the path finds nothing, or what it finds cannot have children *)
@@ -133,6 +161,11 @@ Theorem C07_T3_reports_unapplied : forall SC ic ins order F2 e1 P1 mods1 F3 e3 P
   final_pass SC (F2, e1, P1) mods1 = (F3, e3, P3) ->
   In a (all_pending P3) -> Process SC ic ins order = RErr.
 Proof. exact process_reports_unapplied. Qed.
+
+(* after the rounds the reporting pass only reports: it applies no augment (final_applied of Spec/C04.v) *)
+Theorem C07_T3_final_pass_applies_nothing : forall SC ic order,
+  NoDup (map m_name SC) -> covers (pend0 SC) order -> C04.final_applied SC ic order = O.
+Proof. exact final_pass_applies_nothing. Qed.
 
 (* read from a clean result: no step was dirty and no augment remains unapplied *)
 Theorem C07_T3_clean_result : forall SC ic ins order F4, Process SC ic ins order = ROk F4 ->
@@ -220,6 +253,18 @@ Proof.
   - apply covers_all. intros m [H | [H | [H | []]]]; subst m; vm_compute; tauto.
   - intros m [H | [H | [H | []]]]; subst m; reflexivity.
   - vm_compute. reflexivity.
+Qed.
+
+(* the Process-level theorem applies: both orders give equivalent forests *)
+Example C07_ex_orders_equivalent :
+  match Process exSC false false ord1, Process exSC false false ord2 with
+  | ROk F1, ROk F2 => forest_eqv F1 F2
+  | RErr, RErr => True
+  | _, _ => False
+  end.
+Proof.
+  destruct C07_ex_hypotheses as [Hnd [Hc1 [Hc2 [Hdev _]]]].
+  exact (C07_T2_process_order_independent exSC false false Hdev Hnd ord1 ord2 Hc1 Hc2).
 Qed.
 
 (* the grafted nodes and their namespaces, in both orders *)
